@@ -17,18 +17,20 @@ func specFail(format string, args ...interface{}) {
 }
 
 type specCtx struct {
-	fc       *fnCtx
-	st       *State
-	heap     map[string]string
-	old      map[string]string
-	now      string
-	oldNow   string
-	vars     map[string]Val
-	result   []Val
-	useNames bool
-	pkg      string
-	tparamOf map[string]types.Type
-	inOld    bool
+	fc        *fnCtx
+	st        *State
+	heap      map[string]string
+	old       map[string]string
+	now       string
+	oldNow    string
+	vars      map[string]Val
+	params    map[string]Val
+	result    []Val
+	useNames  bool
+	pkg       string
+	tparamOf  map[string]types.Type
+	inOld     bool
+	expanding map[string]bool // tracked objects whose model is being expanded (ownership is acyclic)
 }
 
 func (sc *specCtx) withVar(name string, v Val) *specCtx {
@@ -59,6 +61,9 @@ func (sc *specCtx) lookup(name string) (Val, bool) {
 			return v, true
 		}
 	}
+	if v, ok := sc.params[name]; ok {
+		return v, true
+	}
 	switch name {
 	case "nil":
 		return Val{T: "nil", S: SU}, true
@@ -70,6 +75,8 @@ func (sc *specCtx) lookup(name string) (Val, bool) {
 		return intVal("2"), true
 	case "MAXLEN":
 		return intVal("MAXLEN"), true
+	case "MAXLEN2":
+		return intVal("MAXLEN2"), true
 	case "now":
 		return intVal(sc.now), true
 	}
@@ -344,12 +351,28 @@ func (sc *specCtx) modelOf(m string, x Val) Val {
 	}
 	for i := len(sc.st.tracked) - 1; i >= 0; i-- {
 		tr := sc.st.tracked[i]
-		if v, ok := tr.expand(sc, m); ok {
+		if sc.expanding[tr.ref] {
+			continue
+		}
+		n := *sc
+		n.expanding = map[string]bool{tr.ref: true}
+		for k := range sc.expanding {
+			n.expanding[k] = true
+		}
+		if v, ok := tr.expand(&n, m); ok {
 			if tr.ref == x.T {
 				return v
 			}
-			t = fmt.Sprintf("(ite (= %s %s) %s %s)", x.T, tr.ref, v.T, t)
+			if v.T != t {
+				t = fmt.Sprintf("(ite (= %s %s) %s %s)", x.T, tr.ref, v.T, t)
+			}
 		}
+	}
+	if strings.Contains(t, "(ite ") && !strings.Contains(t, "q_") {
+		// name the term: e-matching patterns cannot contain ite
+		n := sc.fc.declare(sc.st, "mdl_"+m, s.SMT())
+		sc.st.pc = append(sc.st.pc, eq(n, t))
+		t = n
 	}
 	return Val{T: t, S: s}
 }
@@ -567,6 +590,34 @@ func (sc *specCtx) evalCall(e *CallE) Val {
 			return z
 		}
 		return sc.fc.zeroByName(sc.st, id.Name)
+	case "entry":
+		if len(e.Args) != 1 {
+			specFail("entry(param)")
+		}
+		id, ok := e.Args[0].(*Ident)
+		if !ok {
+			specFail("entry(param): parameter name expected")
+		}
+		if v, ok := sc.params[id.Name]; ok {
+			return v
+		}
+		specFail("entry(%s): no such parameter", id.Name)
+	case "unchanged":
+		// unchanged(model): every object allocated at function entry has the same model value as at entry
+		if len(e.Args) != 1 {
+			specFail("unchanged(model)")
+		}
+		id, ok := e.Args[0].(*Ident)
+		if !ok {
+			specFail("unchanged(model): model name expected")
+		}
+		ms, ok := sc.fc.e.contracts.Models[id.Name]
+		if !ok || sc.old == nil {
+			specFail("unchanged(%s): unknown model", id.Name)
+		}
+		cur := sc.fc.regionIn(sc.st, sc.heap, "M."+id.Name, regionArraySort(sortByName(ms)))
+		ent := sc.fc.regionIn(sc.st, sc.old, "M."+id.Name, regionArraySort(sortByName(ms)))
+		return boolVal(fmt.Sprintf("(forall ((o U)) (! (=> (< (atime o) %s) (= (select %s o) (select %s o))) :pattern ((select %s o))))", sc.oldNow, cur, ent, cur))
 	case "localfresh":
 		a := args(1)
 		top := sc.fc.top
